@@ -4,36 +4,42 @@ pub mod vshim {
     pub fn random<T>() -> T { unimplemented!() }
 }
 pub mod vcell {
+    // Stand-in for std::cell::RefCell (transformation T7). The contents are HAVOCKED at every borrow:
+    // nothing is remembered between two borrows except the cell invariant `CellInv::cell_inv`, which
+    // `new` requires and every borrow provides. Assumption (reported): whoever mutates through a RefMut
+    // restores the invariant before the guard is dropped (for PendingPacket the only mutator is
+    // acknowledge_fragment, which is proved to preserve it; RemoteClient's invariant is `true`).
     use vstd::prelude::*;
+    pub trait CellInv { spec fn cell_inv(&self) -> bool; }
     #[verifier::external_body]
     #[verifier::reject_recursive_types(T)]
-    pub struct RefCell<T> { inner: std::cell::RefCell<T> }
+    pub struct RefCell<T: CellInv> { inner: std::cell::RefCell<T> }
     #[verifier::external_body]
     #[verifier::reject_recursive_types(T)]
-    pub struct RefMut<'a, T> { inner: std::cell::RefMut<'a, T> }
+    pub struct RefMut<'a, T: CellInv> { inner: std::cell::RefMut<'a, T> }
     #[verifier::external_body]
     #[verifier::reject_recursive_types(T)]
-    pub struct Ref<'a, T> { inner: std::cell::Ref<'a, T> }
-    impl<T> RefCell<T> {
+    pub struct Ref<'a, T: CellInv> { inner: std::cell::Ref<'a, T> }
+    impl<T: CellInv> RefCell<T> {
         #[verifier::external_body]
-        pub fn new(v: T) -> Self { RefCell { inner: std::cell::RefCell::new(v) } }
+        pub fn new(v: T) -> Self requires v.cell_inv() { RefCell { inner: std::cell::RefCell::new(v) } }
         #[verifier::external_body]
-        pub fn borrow_mut(&self) -> RefMut<'_, T> { RefMut { inner: self.inner.borrow_mut() } }
+        pub fn borrow_mut(&self) -> (r: RefMut<'_, T>) ensures r.val().cell_inv() { RefMut { inner: self.inner.borrow_mut() } }
         #[verifier::external_body]
-        pub fn borrow(&self) -> Ref<'_, T> { Ref { inner: self.inner.borrow() } }
+        pub fn borrow(&self) -> (r: Ref<'_, T>) ensures r.val().cell_inv() { Ref { inner: self.inner.borrow() } }
     }
-    impl<'a, T> RefMut<'a, T> { pub uninterp spec fn val(&self) -> T; }
-    impl<'a, T> Ref<'a, T> { pub uninterp spec fn val(&self) -> T; }
-    impl<'a, T> std::ops::Deref for RefMut<'a, T> {
+    impl<'a, T: CellInv> RefMut<'a, T> { pub uninterp spec fn val(&self) -> T; }
+    impl<'a, T: CellInv> Ref<'a, T> { pub uninterp spec fn val(&self) -> T; }
+    impl<'a, T: CellInv> std::ops::Deref for RefMut<'a, T> {
         type Target = T;
         #[verifier::external_body]
         fn deref(&self) -> (r: &T) ensures *r == self.val() { &*self.inner }
     }
-    impl<'a, T> std::ops::DerefMut for RefMut<'a, T> {
+    impl<'a, T: CellInv> std::ops::DerefMut for RefMut<'a, T> {
         #[verifier::external_body]
         fn deref_mut(&mut self) -> (r: &mut T) ensures *r == old(self).val(), final(self).val() == *final(r) { &mut *self.inner }
     }
-    impl<'a, T> std::ops::Deref for Ref<'a, T> {
+    impl<'a, T: CellInv> std::ops::Deref for Ref<'a, T> {
         type Target = T;
         #[verifier::external_body]
         fn deref(&self) -> (r: &T) ensures *r == self.val() { &*self.inner }
